@@ -48,9 +48,10 @@ The edge of the range at the top ("non-finite result" is a failure only where th
 the textbook order, stays inside binary64): b - a, every power X^k of a term the code evaluates (zero coefficients
 included: 0 * inf is NaN), the weighted sample sums (<= (3 n + 8) B0, B0 = sum |c_k| X^k >= max|f|) and their products
 with h and 3 h must stay below 2^1020; for Romberg the trapezoid sums (<= 1024 B0) and the Richardson products 4^k R
-(<= 2^19 W B0).  For Simpson / trapezoid requests that fail this crude test the rule is evaluated literally at its exact
-nodes (`in_range_exact`, limit 2^1023).  Beyond that the oracle abstains - an implementation may overflow there because
-the formula does.
+(<= 2^19 W B0).  For Simpson / trapezoid requests that fail this crude test - abscissae in the top binades included: the crude
+test refuses every |x| >= 2^1020, although x itself is the only power a linear function needs - the rule is evaluated
+literally at its exact nodes (`in_range_exact`, limit 2^1023 for every quantity the rule forms, abscissae up to 2^1024 - 2^990).
+Beyond that the oracle abstains - an implementation may overflow there because the formula does.
 """
 import struct
 from fractions import Fraction
@@ -58,7 +59,7 @@ from fractions import Fraction
 TOLS = [-1.0, 0.0, 1e-12, 1e-9, 1e-6, 1e-3, 0.1, 1.0, 10.0]
 U = Fraction(1, 2 ** 53)
 
-RULE = ("(round 3, the edge of the number range: amplitudes that put the largest quantity of the rule - weighted sample sums, their products with h and 3 h - at 0.55..0.97 of 2^1023 or within 40 binades below the crude bound; amplitudes 2^-990..2^-1080 judged with an absolute underflow allowance of a few units of 2^-1074 instead of a blanket floor; widths that are small multiples of 2^-1074 under amplitudes of 2^900..2^1015; abscissae at 2^(1000/deg) with narrow [relative 2^-1..2^-50] and wide intervals; intervals wider than f64::MAX; abscissae inside the subnormal range) simpson: the segment counts 1,2,3,4,5,7 on every degree 0..8 x both polynomial types x four interval "
+RULE = ("(round 4: abscissae in the top binades - both interval ends between 2^1015 and f64::MAX, half of them beyond 2^1023, same sign or across 0, relative width 2^-50..1, degree 0 / 1 with slopes 2^-1030..2^-1010 or lifted to a few binades under the top - judged by evaluating the rule literally at its exact nodes [abscissae up to 2^1024 - 2^990 are in range when every quantity the rule forms stays below 2^1023]; repeated sample values: f equal at both ends / at ends and middle / at every node / at the first two nodes without being constant) (round 3, the edge of the number range: amplitudes that put the largest quantity of the rule - weighted sample sums, their products with h and 3 h - at 0.55..0.97 of 2^1023 or within 40 binades below the crude bound; amplitudes 2^-990..2^-1080 judged with an absolute underflow allowance of a few units of 2^-1074 instead of a blanket floor; widths that are small multiples of 2^-1074 under amplitudes of 2^900..2^1015; abscissae at 2^(1000/deg) with narrow [relative 2^-1..2^-50] and wide intervals; intervals wider than f64::MAX; abscissae inside the subnormal range) simpson: the segment counts 1,2,3,4,5,7 on every degree 0..8 x both polynomial types x four interval "
         "kinds, then every n in 1..200 x (10 quick / 400 thorough) random polynomials (half of degree <= 3, half 4..8; "
         "small dyadic coefficients; intervals dyadic, reversed, empty, symmetric, decimal, arbitrary); romberg: every "
         "cap 0..64 x every tolerance in {-1,0,1e-12,1e-9,1e-6,1e-3,0.1,1,10} x (5 quick / 61 thorough) polynomials "
@@ -174,20 +175,20 @@ def in_range(terms, a, b, n, romberg):
     """does the textbook evaluation of the rule stay inside binary64 (see the module docstring)?"""
     W = abs(b - a)
     X = max(abs(a), abs(b))
-    if W >= TOP:
-        return False
-    if X > 1 and any(X ** e >= TOP for _, e in terms):
-        return False
+    crude = W < TOP and not (X > 1 and any(X ** e >= TOP for _, e in terms))
     B0 = sum(abs(c) * X ** e for c, e in terms)
     if romberg:
-        return B0 * max(1024, 2 ** 19 * W) < TOP
+        return crude and B0 * max(1024, 2 ** 19 * W) < TOP
     h = W / max(n, 1)
-    if (3 * n + 8) * B0 * max(1, 3 * h) < TOP:
+    if crude and (3 * n + 8) * B0 * max(1, 3 * h) < TOP:
         return True
     return in_range_exact(terms, a, b, n)
 
 
 LIM = 2 ** 1023
+# the largest abscissa judged at the top: the nodes the code forms (`xi += 2 h`, `xi - h`, `end - h i`) drift from the exact
+# nodes by at most (n/2 + 4) u X <= 2^-41 X for n <= 4096; 2^1024 - 2^990 leaves that room below f64::MAX = 2^1024 - 2^970
+NODE_LIM = 2 ** 1024 - 2 ** 990
 
 
 def in_range_exact(terms, a, b, n):
@@ -196,14 +197,24 @@ def in_range_exact(terms, a, b, n):
     their products with h and 3 h stay below 2^1023 - one binade under the largest double, which absorbs the rounding
     of the nodes and of the sums.  Within these limits the code's own order of operations cannot overflow, and an
     implementation that does (3 * sum before * h, a scaled accumulator, ...) is wrong "although every term, every
-    in-order partial sum and the result are finite"."""
+    in-order partial sum and the result are finite".
+    The quantities of the statement's formula are the width b - a, h, 2 h, 3 h (all <= 1.5 W for n >= 2), the nodes, the
+    powers x^k of the terms (zero coefficients included: 0 * inf is NaN), the samples, the weighted sums and their products
+    with h: the ABSCISSAE themselves may lie anywhere up to NODE_LIM - a linear function with a slope of 2^-1022 on
+    [2^1023, 1.0009 * 2^1023] is an ordinary problem whose nodes, samples, sums and integral are all finite; forming
+    `left + xi` or `(b - a) * i` there overflows although nothing in the rule does."""
     if n < 1 or n > 4096:
+        return False
+    if abs(b - a) >= LIM or max(abs(a), abs(b)) > NODE_LIM:
         return False
     h = (b - a) / n
     fs = []
     for i in range(n + 1):
         x = a + i * h
-        if sum(abs(c) * abs(x) ** e for c, e in terms) >= LIM:
+        ax = abs(x)
+        if ax > 1 and any(e >= 2 and ax ** e >= LIM for _, e in terms):
+            return False
+        if sum(abs(c) * ax ** e for c, e in terms) >= LIM:
             return False
         fs.append(abs(value(terms, x)))
     ah = abs(h)
